@@ -202,6 +202,52 @@ theorem diff_key_hash {H : Type} (keyHash : K → H) (c : Ctx) (b : BM K V) (e :
 /-- the expression hash is the base58 `expr` form of a 32-byte Blake2b digest (recomputed independently by the check) -/
 theorem key_hash_format : keyHashPrefix = some "expr" ∧ keyHashDigestSize = some 32 := by decide
 
+/-! ### DUP, and pytezos' own reading of the emitted diff -/
+
+/-- DUP of a big map gives a value with the same id and the same local layer: it stands for the same dictionary and
+satisfies the invariant, so every theorem above applies to each of the two copies separately as they diverge -/
+theorem duplicate_same {b : BM K V} (hI : Inv lt b) (chain : K → Option V) :
+    ∃ b', duplicate b = some b' ∧ b'.ptr = b.ptr ∧ Inv lt b' ∧ layered (overlay b') chain = layered (overlay b) chain := by
+  refine ⟨⟨b.items, b.removed, b.ptr⟩, ?_, rfl, ⟨hI.sorted, hI.noNone, hI.disjoint, hI.nodup⟩, rfl⟩
+  have : duplicateShape = some () := by decide
+  simp only [duplicate, this, Option.map_some]
+
+/-- `merge_lazy_diff` takes exactly the updates with a value for stored items -/
+theorem merge_shape_ok : mergeShape = some .isNotNone := by decide
+
+/-- reading the emitted updates back with `merge_lazy_diff` gives the local layer that was emitted — whatever the values
+are (`falsy`: which values have a falsy Micheline form plays no role) -/
+theorem merge_reads_emitted {b : BM K V} (hI : Inv lt b) (falsy : V → Bool) (p : Int) :
+    mergeLazyDiff falsy p (diffUpdates b) = some ⟨b.items, b.removed, some p⟩ := by
+  have h1 : b.items.filter (fun u => hasValue .isNotNone falsy u.2) = b.items := by
+    refine List.filter_eq_self.2 ?_
+    intro e he
+    cases h : e.2 with
+    | none => exact absurd h (hI.noNone e he)
+    | some x => rfl
+  have h2 : b.items.filter (fun u => !hasValue .isNotNone falsy u.2) = [] := by
+    refine List.filter_eq_nil_iff.2 ?_
+    intro e he
+    cases h : e.2 with
+    | none => exact absurd h (hI.noNone e he)
+    | some x => simp [hasValue]
+  have h3 : (b.removed.map fun k => (k, (none : Option V))).filter (fun u => hasValue .isNotNone falsy u.2) = [] := by
+    refine List.filter_eq_nil_iff.2 ?_
+    intro e he
+    obtain ⟨k, _, rfl⟩ := List.mem_map.1 he
+    simp [hasValue]
+  have h4 : ((b.removed.map fun k => (k, (none : Option V))).filter (fun u => !hasValue .isNotNone falsy u.2)).map (·.1) = b.removed := by
+    rw [List.filter_eq_self.2 (by intro e he; obtain ⟨k, _, rfl⟩ := List.mem_map.1 he; simp [hasValue])]
+    simp [Function.comp_def]
+  simp only [mergeLazyDiff, merge_shape_ok, Option.map_some, mergeWith, diffUpdates, selfIter, List.filter_append, h1, h2, h3,
+    List.append_nil, List.nil_append, h4]
+
+/-- pinned shape (truthiness test): an update whose value is falsy — an empty map, set or list — is read back as a removal -/
+theorem truthy_merge_counterexample :
+    mergeWith .truthy (fun v : Nat => v == 0) 5 [((1 : Nat), some 0), (2, some 7), (3, none)] = ⟨[(2, some 7)], [1, 3], some 5⟩ ∧
+    mergeWith .isNotNone (fun v : Nat => v == 0) 5 [((1 : Nat), some 0), (2, some 7), (3, none)]
+      = ⟨[(1, some 0), (2, some 7)], [3], some 5⟩ := by decide
+
 /-! ### keys of every comparable Michelson type (no hypothesis on the order)
 
 `TVal τ` = the runtime values of the comparable type `τ` (C03: unit, bool, int, nat, mutez, timestamp, string, bytes,
